@@ -15,6 +15,7 @@ import (
 	"iter"
 	"os"
 	"runtime/debug"
+	"slices"
 	"strings"
 	"sync"
 	"sync/atomic"
@@ -79,9 +80,20 @@ type c13Graph struct {
 func (g c13Graph) String() string {
 	var b strings.Builder
 	fmt.Fprintf(&b, "n%d[", g.N)
-	first := true
+	// large graphs of the word-boundary family: a chain i>i+1 plus a few extra edges
+	chain := g.N > 8
+	for i := 0; chain && i+1 < g.N; i++ {
+		chain = slices.Contains(g.Succs[i], i+1)
+	}
+	if chain {
+		fmt.Fprintf(&b, "chain0..%d", g.N-1)
+	}
+	first := !chain
 	for i, ss := range g.Succs {
 		for _, s := range ss {
+			if chain && s == i+1 {
+				continue
+			}
 			if !first {
 				b.WriteByte(',')
 			}
@@ -109,10 +121,10 @@ func c13FromMask(n int, mask uint64) c13Graph {
 // c13GraphInfo is the precomputed shape of one graph.
 type c13GraphInfo struct {
 	g        c13Graph
-	edges    [][2]int // in (from, to) order
-	eidx     [8][8]int
-	preds    [][]int // edge indices entering node
-	outs     [][]int // edge indices leaving node
+	edges    [][2]int  // in (from, to) order
+	eidx     [8][8]int // (from,to) -> edge index for graphs with <= 8 nodes; larger graphs search outs
+	preds    [][]int   // edge indices entering node
+	outs     [][]int   // edge indices leaving node
 	zeroPred []int
 	cyclic   bool
 }
@@ -128,7 +140,9 @@ func c13Info(g c13Graph) *c13GraphInfo {
 		for _, s := range ss {
 			e := len(gi.edges)
 			gi.edges = append(gi.edges, [2]int{i, s})
-			gi.eidx[i][s] = e
+			if g.N <= 8 {
+				gi.eidx[i][s] = e
+			}
 			gi.preds[s] = append(gi.preds[s], e)
 			gi.outs[i] = append(gi.outs[i], e)
 		}
@@ -160,6 +174,19 @@ func c13Info(g c13Graph) *c13GraphInfo {
 	}
 	gi.cyclic = left > 0
 	return gi
+}
+
+// edge returns the index of edge from->to (-1 if absent).
+func (gi *c13GraphInfo) edge(from, to int) int {
+	if gi.g.N <= 8 {
+		return gi.eidx[from][to]
+	}
+	for _, e := range gi.outs[from] {
+		if gi.edges[e][1] == to {
+			return e
+		}
+	}
+	return -1
 }
 
 // The four shapes in which the graph is handed to the real solver.
@@ -266,6 +293,38 @@ type c13Chain3 struct{}
 func (c13Chain3) Ident() uint8           { return 0 }
 func (c13Chain3) Equals(a, b uint8) bool { return a == b }
 func (c13Chain3) Merge(a, b uint8) uint8 { return max(a, b) }
+
+// c13And: an intersection ("must") lattice on bit sets: merge = AND, identity = all ones.
+// The identity is NOT the zero value of the element type, and the zero value is an ordinary
+// (the greatest) element.
+type c13And struct{}
+
+func (c13And) Ident() uint8           { return 0xFF }
+func (c13And) Equals(a, b uint8) bool { return a == b }
+func (c13And) Merge(a, b uint8) uint8 { return a & b }
+
+// c13FlatNZ: flat lattice whose identity (bottom) is encoded as 7, constants 0 and 1 (so the
+// zero value of the element type is the ordinary element "constant 0"), top 9.
+type c13FlatNZ struct{}
+
+const (
+	c13NZBot uint8 = 7
+	c13NZTop uint8 = 9
+)
+
+func (c13FlatNZ) Ident() uint8           { return c13NZBot }
+func (c13FlatNZ) Equals(a, b uint8) bool { return a == b }
+func (c13FlatNZ) Merge(a, b uint8) uint8 {
+	switch {
+	case a == b:
+		return a
+	case a == c13NZBot:
+		return b
+	case b == c13NZBot:
+		return a
+	}
+	return c13NZTop
+}
 
 // c13Abort is the panic value used to leave a real solver that exceeded its step budget.
 type c13Abort struct{}
